@@ -3,7 +3,7 @@ import re
 from paths import explore
 from sym import fmt, walk, Sym
 from callgraph import CallGraph
-from rules.common import Anchors, path_calls, ret_kind
+from rules.common import adt_base, Anchors, path_calls, ret_kind
 from rules.streams import is_call
 import stdmodel as SM
 
@@ -87,6 +87,25 @@ def funnel(ctx, A, R):
         return None
     okg = bool(geo) and all(all((lit(a) or 0) > 0 for a in g) for g in geo) and len(set(geo)) == 1
     ctx.check(R, okg, 'cache-geometry', 'the node cache geometry must be a pair of positive literals (not derived from the input or the front end): %s' % [[fmt(a) for a in g] for g in geo], fn=nt)
+    # ... and the SAME literals in every build of the crate: an argument chosen by a branch (`if cfg!(debug_assertions) { 1_000 } else
+    # { 10_000 }` is a branch on a constant, of which only one arm is seen here) makes the bytes depend on the build profile
+    for bid, t in nt.calls():
+        if not (nt.callee(t) or '').endswith('Registry::new'):
+            continue
+        for i, a in enumerate(t.get('args', [])):
+            if 'const' in a:
+                continue
+            pl = a.get('copy') or a.get('move')
+            defs = []
+            if pl is not None and not pl['proj']:
+                for b2, blk in nt.blocks.items():
+                    if blk['cleanup']:
+                        continue
+                    for st in blk['stmts']:
+                        if st['k'] == 'assign' and not st['place']['proj'] and st['place']['local'] == pl['local']:
+                            defs.append(st['rv'])
+            single_const = len(defs) == 1 and 'use' in defs[0] and 'const' in defs[0]['use']
+            ctx.check(R, single_const, 'cache-geometry:arg%d' % i, 'argument %d of the node cache constructor is not one literal but a value assigned in %d places (a choice between literals, e.g. by build profile): builds of the same source then emit different bytes for the same keys' % (i, len(defs)), fn=nt, at=t.get('span'))
     tys = {}
     for name in CTORS:
         f = lib.fn(name)
@@ -219,3 +238,13 @@ def run(ctx):
     ctx.step(C07.r07_1, ctx, A, Prover(lib))
     # ... and every other emission hands the sink the whole buffer (write_all): a bare write() on a short-writing sink drops the tail
     ctx.step(C07.r07_2, ctx, A)
+    # the end of the file is written by ONE routine, whichever finishing entry point the caller uses (finish / into_inner of the raw, set
+    # and map builders): a second routine that writes footer and checksum on its own gives the same keys two possible images
+    R5 = ctx.rule('R15.5', 'one finishing routine: every finish / into_inner entry point ends the file through the same code', floor=1)
+    cw_mc = [f for f in lib.fn_list if f.impl and adt_base(f.impl['self_ty']) == A.cw and not f.impl.get('trait_path') and f.local_ty(0) == 'u32']
+    if not cw_mc:
+        ctx.undecided(R5, 'finisher', 'the checksum getter of the counting writer was not found')
+    else:
+        enders = sorted({m.path for m in A.builder_methods() for _, t in m.calls() if m.callee(t) in {f.path for f in cw_mc}})
+        ctx.check(R5, len(enders) == 1, 'single-finisher', 'the checksum that ends the file is read in %d builder routines (%s): finish() and into_inner() can then end the same build with different bytes' % (
+            len(enders), [e.rsplit('::', 1)[-1] for e in enders]), fn=lib.fns.get(enders[-1]) if enders else None)
